@@ -74,6 +74,7 @@ package config
 //@ func (*Config).Default [C25]
 //@   check none
 //@   requires conf != nil
+//@   ensures imp(result == nil, called("(*Config).Set"))
 //@   at call (*Config).ExistsAndGlobal#1 assert arg0 == ite(conf.global == nil, conf, conf.global) && arg1 == app && arg2 == key
 //@   at call (*Config).Set#1 assert exists && arg0 == conf && arg1 == app && arg2 == key && arg4 == fileRef
 //@   at call (*Config).Set#1 assert arg3 == old@lock1(c.properties[app][key].Default) && c == ite(conf.global == nil, conf, conf.global)
